@@ -212,8 +212,18 @@ NEAR_PI_SKIP = "a rotation that the library logs is within 1e-3 rad of a half tu
 
 # ------------------------------------------------------------------------------------------ strategies
 
+@st.composite
+def generic_poses(draw, maxnorm=10.0):
+    """Position and rotation axis generic on the sphere, |p| in [0.1, maxnorm], angle in [0.1, pi-1e-3]."""
+    p = draw(G.generic_unit_vectors()) * draw(G.floats(0.1, maxnorm))
+    w = draw(G.generic_unit_vectors()) * draw(G.floats(0.1, MAXANG))
+    return np.concatenate([p, w])
+
+
 def poses(maxnorm=10.0):
-    return G.taas(maxnorm=maxnorm, maxang=MAXANG)
+    """Half boundary-heavy (vf.gen.taas: zero/axis positions, angle 0 / cut-off band / maximum, aligned axes),
+    half generic."""
+    return st.one_of(G.taas(maxnorm=maxnorm, maxang=MAXANG), generic_poses(maxnorm))
 
 
 def _clip_pose(v, maxnorm=10.0):
@@ -229,9 +239,11 @@ def _clip_pose(v, maxnorm=10.0):
 
 @st.composite
 def pose_pairs(draw):
-    a = draw(poses())
-    kind = draw(st.sampled_from(["indep"] * 7 + ["same", "same_rot", "same_pos", "near", "near"]))
-    if kind == "indep":
+    kind = draw(st.sampled_from(["generic"] * 6 + ["indep"] * 5 + ["same", "same_rot", "same_pos", "near", "near"]))
+    a = draw(generic_poses() if kind == "generic" else poses())
+    if kind == "generic":
+        b = draw(generic_poses())
+    elif kind == "indep":
         b = draw(poses())
     elif kind == "same":
         b = a.copy()
@@ -304,7 +316,7 @@ def lookat_cases(draw):
     dmax = -pu + math.sqrt(max(0.0, pu * pu + 100.0 - float(p @ p)))
     dmin = 1e-3
     dmax = max(dmax, dmin)
-    s = draw(st.one_of(G.floats(0.0, 1.0), st.sampled_from([0.0, 1.0])))
+    s = draw(st.one_of(G.floats(0.0, 1.0), G.floats(0.2, 1.0), G.floats(0.5, 1.0), st.sampled_from([0.0, 1.0])))
     d = dmin * (dmax / dmin) ** s
     b = np.concatenate([p + d * u, draw(G.rotvecs_below(MAXANG))])
     return {"a": a, "b": b}
